@@ -17,6 +17,7 @@ import (
 type Gen struct {
 	rng  *rand.Rand
 	feat Features
+	thin bool // every object has at most one member: object iteration order cannot matter
 }
 
 // Features selects the constructs a family may generate.
@@ -69,6 +70,9 @@ func (g *Gen) doc(depth int) interface{} {
 	switch g.rng.Intn(5) {
 	case 0, 1:
 		n := g.rng.Intn(4)
+		if g.thin && n > 1 {
+			n = 1
+		}
 		m := map[string]interface{}{}
 		for i := 0; i < n; i++ {
 			m[g.key()] = g.doc(depth - 1)
@@ -87,7 +91,11 @@ func (g *Gen) doc(depth int) interface{} {
 				out = append(out, strPool[g.rng.Intn(len(strPool))])
 			case 2:
 				m := map[string]interface{}{}
-				for j := 0; j < 1+g.rng.Intn(3); j++ {
+				nk := 1 + g.rng.Intn(3)
+				if g.thin {
+					nk = 1
+				}
+				for j := 0; j < nk; j++ {
 					m[keyPool[g.rng.Intn(4)]] = g.doc(depth - 2)
 				}
 				out = append(out, m)
@@ -119,7 +127,11 @@ func (g *Gen) rootDoc() interface{} {
 		return out
 	default:
 		m := map[string]interface{}{}
-		for i := 0; i < 2+g.rng.Intn(3); i++ {
+		nk := 2 + g.rng.Intn(3)
+		if g.thin {
+			nk = 1
+		}
+		for i := 0; i < nk; i++ {
 			m[g.key()] = g.doc(2)
 		}
 		return m
